@@ -27,7 +27,7 @@ ASSUMPTIONS = [
 ]
 MUST_SEE = ["prune_not_filter_with_desc", "falsy_children", "shared_objects", "bottom_up_with_prune", "gather_calls", "deep_chain"]
 CONFIG = {
-    "quick": {"shards": 16, "small_trees": 60, "exh_n": 4, "large_trees": 25, "watchdog_s": 300},
+    "quick": {"shards": 16, "small_trees": 600, "exh_n": 4, "large_trees": 300, "watchdog_s": 300},
     "thorough": {"shards": 32, "small_trees": 400, "exh_n": 6, "large_trees": 250, "watchdog_s": 3000},
 }
 
